@@ -7,6 +7,7 @@ from ..symex import Valuation, Undecided, default_policy
 from ..terms import fmt, ZERO, num
 
 MID = 'BacktestDataHandler.get_asset_latest_mid_price'
+READER_OFFSET = {}
 
 
 def check(ctx):
@@ -19,6 +20,45 @@ def check(ctx):
 
 
 # ------------------------------------------------------------------------------------------------ S1
+def late_bound_loop_lambdas(ctx, root):
+    """lambdas created inside a for loop of `root` or its private steps that escape the iteration (stored in a container, yielded, returned) and read a
+    loop variable as a free variable: python resolves it at call time.  -> [(site, [names])]"""
+    import ast as _ast
+    from ..lib import private_closure
+    out = []
+    for q in sorted(private_closure(ctx.M, {root})):
+        g = ctx.M.funcs.get(q)
+        if g is None:
+            continue
+
+        def walk(node, loopvars, parent):
+            if isinstance(node, (_ast.For, _ast.AsyncFor)):
+                tv = {n.id for n in _ast.walk(node.target) if isinstance(n, _ast.Name)}
+                for ch in node.body:
+                    walk(ch, loopvars | tv, node)
+                for ch in node.orelse:
+                    walk(ch, loopvars, node)
+                walk(node.iter, loopvars, node)
+                return
+            if isinstance(node, _ast.Lambda) and loopvars:
+                params = {a.arg for a in node.args.args + node.args.kwonlyargs + node.args.posonlyargs}
+                if node.args.vararg:
+                    params.add(node.args.vararg.arg)
+                if node.args.kwarg:
+                    params.add(node.args.kwarg.arg)
+                free = {n.id for n in _ast.walk(node.body) if isinstance(n, _ast.Name) and isinstance(n.ctx, _ast.Load)} - params
+                escaping = (isinstance(parent, _ast.Call) and isinstance(parent.func, _ast.Attribute) and parent.func.attr in ('append', 'add', 'insert', 'appendleft', 'put', 'setdefault')
+                            and node in parent.args) or isinstance(parent, (_ast.Yield, _ast.Return)) or \
+                    (isinstance(parent, _ast.Assign) and any(isinstance(t_, (_ast.Subscript, _ast.Attribute)) for t_ in parent.targets))
+                if escaping and free & loopvars:
+                    out.append((g.site(node), sorted(free & loopvars)))
+                # defaults are evaluated at creation time: fine
+            for ch in _ast.iter_child_nodes(node):
+                walk(ch, loopvars, node)
+        walk(g.node, set(), None)
+    return out
+
+
 def run_loop_table(ctx):
     """Decision table of the body of BacktestTradingSession.run's event loop (shared with C14).
     -> list of (valuation dict, [action names in order]) ; raises Undecided when a test is not decidable from the atoms."""
@@ -123,8 +163,30 @@ def cadence(ctx, rule):
             ctx.require(asset == ('elem', loops[1][0].iter, loops[1][0].id) if len(loops) == 2 else None, rule, 'the asset appended is the loop asset', e.site, key='%s|append-asset' % rule)
             for l, b in loops:
                 ctx.require(all(x.outcome == 'fall' for x in l.paths), rule, 'the append loops never break or skip', l.site, key='%s|append-break' % rule)
-    ctx.require(upd == 1 and app == 1, rule, 'one refresh site and one append site in SignalsCollection.update', f2.site(), '%d refresh, %d append' % (upd, app),
-                key='%s|sites' % rule)
+    deferred = False
+    if app == 0:
+        # appends wrapped in callables that are collected first and applied later (a list of lambdas / partials) are not followed: if such a
+        # deferred two-argument .append(asset, price) exists in update or its private steps, the clause is left open rather than reported as missing
+        import ast as _ast
+        from ..lib import private_closure
+        for q in private_closure(ctx.M, {qn}):
+            g = ctx.M.funcs.get(q)
+            for n_ in (_ast.walk(g.node) if g is not None else ()):
+                if isinstance(n_, (_ast.Lambda, _ast.FunctionDef)) and n_ is not g.node:
+                    deferred = deferred or any(isinstance(c_, _ast.Call) and isinstance(c_.func, _ast.Attribute) and c_.func.attr == 'append' and len(c_.args) + len(c_.keywords) == 2
+                                               for c_ in _ast.walk(n_))
+                if isinstance(n_, _ast.Call) and ctx.M.ext_name(g.mod, n_.func) in ('functools.partial',) and n_.args and isinstance(n_.args[0], _ast.Attribute) and n_.args[0].attr == 'append':
+                    deferred = True
+    late = late_bound_loop_lambdas(ctx, qn) if deferred else []
+    if late:
+        ctx.violation(rule, 'every deferred update is applied to the signal and asset it was created for', late[0][0],
+                      'the callable created in the loop reads the loop variable%s %s when it is finally called (after the loop has moved on), not when it was created' % (
+                          's' if len(late[0][1]) > 1 else '', ', '.join(late[0][1])), key='%s|late-binding' % rule)
+    elif deferred and upd == 1:
+        ctx.undecided(rule, 'one refresh site and one append site in SignalsCollection.update', f2.site(), 'the appends are deferred callables applied later; not followed')
+    else:
+        ctx.require(upd == 1 and app == 1, rule, 'one refresh site and one append site in SignalsCollection.update', f2.site(), '%d refresh, %d append' % (upd, app),
+                    key='%s|sites' % rule)
     # Signal.append forwards to the buffers unchanged
     ps = summarise(ctx, 'Signal.append', policy=no_inline)
     for p in normal(ps):
@@ -154,39 +216,163 @@ def _offset(t, base):
     return d[1] if d[0] == 'num' else None
 
 
+def _signals_inline(caller, callee, depth):
+    return depth <= 10
+
+
+def _unzip_comp(c):
+    """{k: v for k, l in zip([f(x) for x in L], L)}  ==  {f(x): v[l := x] for x in L}: one generator over the common source"""
+    gens = c[3]
+    if len(gens) != 1 or gens[0][2]:
+        return c
+    shape, src, _ = gens[0]
+    if not (src[0] == 'call' and src[1] == ('ext', 'ZIP') and len(src[2]) == len(shape) and len(shape) >= 2):
+        return c
+    plain = [a for a in src[2] if not (a[0] == 'comp' and a[1] in ('list', 'gen'))]
+    if len(set(plain)) != 1:
+        return c
+    L = plain[0]
+    nb = ('bv', max([z[1] for z in T.subterms(c) if z[0] == 'bv'] + [0]) + 1)
+    m = {}
+    for bv, a in zip(shape, src[2]):
+        if a == L:
+            m[bv] = nb
+        elif len(a[3]) == 1 and a[3][0][1] == L and not a[3][0][2] and len(a[3][0][0]) == 1:
+            inner = a[3][0][0][0]
+            m[bv] = T.replace(a[2], lambda z, inner=inner: nb if z == inner else None)
+        else:
+            return c
+    body = T.replace(c[2], lambda z: m.get(z) if z[0] == 'bv' else None)
+    return ('comp', c[1], body, (((nb,), L, ()),))
+
+
+def _fuse_nested(c):
+    """{f(k): v for k in [g(a) for a in A]}  ==  {f(g(a)): v for a in A}"""
+    for _ in range(4):
+        gens = list(c[3])
+        changed = False
+        for i, (shape, src, conds) in enumerate(gens):
+            if len(shape) == 1 and src[0] == 'comp' and src[1] in ('list', 'gen') and len(src[3]) == 1 and not src[3][0][2]:
+                top = max([z[1] for z in T.subterms(c) if z[0] == 'bv'] + [0])
+                inner_shape = src[3][0][0]
+                ren = {b: ('bv', top + 1 + j) for j, b in enumerate(inner_shape)}
+                elt = T.replace(src[2], lambda z: ren.get(z) if z[0] == 'bv' else None)
+                bv = shape[0]
+                sub = lambda t: T.replace(t, lambda z: elt if z == bv else None)
+                gens[i] = (tuple(ren[b] for b in inner_shape), src[3][0][1], tuple(sub(x) for x in conds))
+                for j in range(i + 1, len(gens)):
+                    gens[j] = (gens[j][0], sub(gens[j][1]), tuple(sub(x) for x in gens[j][2]))
+                c = ('comp', c[1], sub(c[2]), tuple(gens))
+                changed = True
+                break
+        if not changed:
+            break
+    return c
+
+
+def _deque_rows(term, lookbacks_param):
+    """(key offset, maxlen offset) of every '<asset>_<lookback + ko>' -> deque(maxlen=lookback + mo) table inside `term`, relative to an element of the
+    lookbacks the signal constructor was given; 'shared' when one deque object is stored under several keys; None entries for tables not understood"""
+    def element_of(src):
+        """how an element of `src` is written in terms of an element e of the lookbacks given: a function z -> term, or None"""
+        if src == lookbacks_param:
+            return lambda z: None
+        if src[0] == 'comp' and src[1] in ('list', 'gen') and len(src[3]) == 1 and src[3][0][1] == lookbacks_param and not src[3][0][2] and len(src[3][0][0]) == 1:
+            return lambda z, src=src: (src[2], src[3][0][0][0])
+        return False
+    rows = []
+    for s in T.subterms(term):
+        if s[0] == 'call' and s[1][0] in ('ext', 'meth') and s[1][1] in ('DICT.fromkeys', 'dict.fromkeys', 'fromkeys', 'builtins.dict.fromkeys') and len(s[2]) >= 2 and \
+                any(z[0] == 'call' and z[1] == ('ext', 'collections.deque') for z in T.subterms(s[2][-1])):
+            rows.append('shared')
+        if not (s[0] == 'comp' and s[1] == 'dict'):
+            continue
+        if not any(z[0] == 'call' and z[1] == ('ext', 'collections.deque') for z in T.subterms(s[2])):
+            continue
+        c = _fuse_nested(_unzip_comp(s))
+        k, v = c[2][1]
+        row = None
+        if v[0] == 'call' and v[1] == ('ext', 'collections.deque') and k[0] == 'fmt' and k[1] == ('str', '%s_%s') and k[2][0] == 'tuple' and len(k[2][1]) == 2:
+            ml = dict(v[3]).get('maxlen', v[2][1] if len(v[2]) > 1 else None)
+            kt = k[2][1][1]
+            # the variable that ranges over the lookbacks: a generator variable of this comprehension, or the element of an enclosing statement loop
+            cands = [(shape[0], src) for shape, src, conds in c[3] if len(shape) == 1 and not conds]
+            cands += [(z, z[1]) for z in T.subterms(kt) if z[0] == 'elem']
+            for var, src in cands:
+                how = element_of(src)
+                if how is False:
+                    continue
+                m = how(var)
+                if m is None:
+                    k2, ml2, base = kt, ml, var
+                else:
+                    f_, inner = m
+                    k2 = T.replace(kt, lambda z: f_ if z == var else None)
+                    ml2 = T.replace(ml, lambda z: f_ if z == var else None) if ml is not None else None
+                    base = inner
+                ko, mo = _offset(k2, base), (_offset(ml2, base) if ml2 is not None else None)
+                if ko is not None and mo is not None:
+                    row = (ko, mo)
+        rows.append(row)
+    return rows
+
+
+def signal_window(ctx, cname):
+    """(key offset, window offset) of the price buffers a freshly constructed <cname> holds, from the constructor's own summary with the buffer object built
+    structurally - whichever of signal class, base class or buffer class applies the '+1 price for N returns' adjustment.  Raises Undecided when not understood."""
+    from ..symex import SymEx, VALUE_CLASSES, State
+    cls = ctx.cls(cname)
+    init = cls.lookup('__init__')
+    if init is None:
+        raise Undecided('%s has no constructor' % cname)
+    vc = set(VALUE_CLASSES) | {'AssetPriceBuffers'}
+    ips = normal(SymEx(ctx.M, policy=_signals_inline, value_classes=vc).run(init, dyn=cls))
+    ctx.paths_explored += len(ips)
+    if len(ips) != 1:
+        raise Undecided('%s.__init__ has %d accepting paths' % (cname, len(ips)))
+    b = ips[0].heap.get(A('self', 'buffers'))
+    if b is None or b[0] != 'new':
+        raise Undecided('%s.__init__ does not leave a structurally built buffer object in self.buffers: %s' % (cname, fmt(b)[:80] if b else None))
+    fields = dict(b[2])
+    lb = V('lookbacks')
+    rows = _deque_rows(fields.get('prices', ZERO), lb)
+    # assets that join later get their buffers from add_asset: same table
+    bc = ctx.cls(b[1])
+    add = bc.lookup('add_asset') if bc is not None else None
+    if add is not None:
+        heap = {A('self', k): v for k, v in b[2]}
+        aps = SymEx(ctx.M, policy=_signals_inline, value_classes=vc).run(add, state=State(heap=heap), dyn=bc)
+        for p in normal(aps):
+            for w in heap_writes(p, 'prices'):
+                if w.value is not None:
+                    rows += _deque_rows(w.value, lb)
+    return ips[0], rows
+
+
 def s2_keys(ctx):
-    # writer: '<asset>_<lookback>' -> deque(maxlen=lookback), a fresh deque per key
-    qn = 'AssetPriceBuffers._create_single_asset_prices_buffer_dict'
-    ps = summarise(ctx, qn, policy=default_policy)
-    ok = False
-    if len(ps) == 1 and ps[0].value is not None and ps[0].value[0] == 'comp' and ps[0].value[1] == 'dict':
-        c = ps[0].value
-        gens = c[3]
-        if len(gens) == 1 and fmt(gens[0][1]) == 'self.lookbacks' and not gens[0][2]:
-            bv = gens[0][0][0]
-            k, v = c[2][1]
-            ok = k == ('fmt', ('str', '%s_%s'), ('tuple', (V('asset'), bv))) and v[0] == 'call' and v[1] == ('ext', 'collections.deque') and dict(v[3]).get('maxlen') == bv and not v[2]
-    ctx.require(ok, 'C16.S2', "buffers are keyed '<asset>_<lookback>' with a fresh deque(maxlen=lookback) per key", ctx.fn(qn).site(),
-                fmt(ps[0].value)[:200] if ps and ps[0].value else None, key='C16.S2|writer')
     table = {'MomentumSignal': ('_cumulative_return', 1, 'returns'), 'VolatilitySignal': ('_annualised_vol', 1, 'returns'), 'SMASignal': ('_simple_moving_average', 0, 'prices')}
     for cname, (reader, want, kind) in table.items():
         c = ctx.cls(cname)
-        init = c.methods.get('__init__')
-        bump = 0
-        if init is not None:
-            ps = summarise(ctx, init, policy=no_inline)
-            cs = [e for p in normal(ps) for e in p.flat_events() if e.kind == 'call' and 'Signal.__init__' in e.callee]
-            if not ctx.require(len(cs) == 1 if len(cs) == 1 else None, 'C16.S2', '%s.__init__ delegates to Signal.__init__ once' % cname, init.site()):
-                continue
-            lb = cs[0].args.get('lookbacks')
-            if lb == V('lookbacks'):
-                bump = 0
-            elif lb is not None and lb[0] == 'comp' and lb[1] == 'list' and len(lb[3]) == 1 and lb[3][0][1] == V('lookbacks') and not lb[3][0][2]:
-                bump = _offset(lb[2], lb[3][0][0][0])
-            else:
-                bump = None
-        if not ctx.require(bump is not None if bump is not None else None, 'C16.S2', '%s passes lookback + k to the buffers' % cname, init.site() if init else None):
+        site0 = (c.lookup('__init__') or c.lookup(reader)).site()
+        try:
+            ip, rows = signal_window(ctx, cname)
+        except Undecided as u:
+            ctx.undecided('C16.S2', "%s's buffers are keyed '<asset>_<lookback + k>' with a fresh deque per key" % cname, site0, str(u)[:200])
             continue
+        if 'shared' in rows:
+            ctx.violation('C16.S2', "%s: buffers are keyed '<asset>_<lookback>' with a fresh deque(maxlen=...) per key" % cname, site0,
+                          'dict.fromkeys(keys, deque(...)) stores ONE deque object under every key: all assets share a window', key='C16.S2|writer')
+            continue
+        good = {r for r in rows if r is not None}
+        if not rows or None in rows or len(good) != 1:
+            if len(good) > 1:
+                ctx.violation('C16.S2', '%s: the buffers built at construction and those added for later assets have the same keys and windows' % cname, site0,
+                              'tables (key offset, window offset): %s' % sorted(good), key='C16.S2|%s|tables-agree' % cname)
+            else:
+                ctx.undecided('C16.S2', "%s's buffers are keyed '<asset>_<lookback + k>' with a fresh deque per key" % cname, site0, 'buffer tables not of the recognised form: %s' % rows)
+            continue
+        ko, mo = good.pop()
+        ctx.holds('C16.S2', "%s: buffers are keyed '<asset>_<lookback%+d>' with a fresh deque(maxlen=lookback%+d) per key (constructor and add_asset)" % (cname, ko, mo), site0)
         rf = ctx.fn('%s.%s' % (cname, reader))
         ps = summarise(ctx, rf, policy=default_policy)
         offs = set()
@@ -201,20 +387,15 @@ def s2_keys(ctx):
                         offs.add(_offset(k[2][1][1], V('lookback')))
                     else:
                         offs.add('?')
-        if not ctx.require(len(offs) == 1 and '?' not in offs if (offs and '?' not in offs) else None, 'C16.S2', "%s reads the buffer '<asset>_<lookback + k>'" % cname, rf.site(), str(offs)):
+        if not ctx.require(len(offs) == 1 and '?' not in offs if (offs and '?' not in offs and None not in offs) else None, 'C16.S2', "%s reads the buffer '<asset>_<lookback + k>'" % cname, rf.site(), str(offs)):
             continue
         rk = offs.pop()
-        ctx.require(rk == bump, 'C16.S2', '%s: the reader\'s key offset equals the window bump of the constructor' % cname, rf.site(),
-                    'constructor stores lookback+%s, reader looks up lookback+%s' % (bump, rk), key='C16.S2|%s|agree' % cname)
-        ctx.require(bump == want, 'C16.S2', '%s keeps N%s prices for an N-period %s' % (cname, '+1' if want else '', 'signal of returns' if want else 'average'), rf.site(),
-                    'window is lookback+%s' % bump, key='C16.S2|%s|window' % cname)
-        ctx.sample({'rule': 'C16.S2', 'signal': cname, 'constructor_bump': str(bump), 'reader_offset': str(rk)})
-    # Signal.__init__ hands the (bumped) lookbacks to the buffers unchanged
-    ps = summarise(ctx, 'Signal._create_asset_price_buffers', policy=no_inline)
-    for p in normal(ps):
-        cs = [e for e in p.flat_events() if e.kind == 'call' and 'AssetPriceBuffers.__init__' in e.callee]
-        ok = len(cs) == 1 and cs[0].args.get('lookbacks') == A('self', 'lookbacks')
-        ctx.require(ok, 'C16.S2', 'the buffers are created with the signal\'s lookbacks', ctx.fn('Signal._create_asset_price_buffers').site(), key='C16.S2|buffers-lookbacks')
+        READER_OFFSET[cname] = rk
+        ctx.require(rk == ko, 'C16.S2', '%s: the reader\'s key offset equals the key offset the constructor stores under' % cname, rf.site(),
+                    'constructor stores under lookback%+d, reader looks up lookback%+d' % (ko, rk), key='C16.S2|%s|agree' % cname)
+        ctx.require(mo == want, 'C16.S2', '%s keeps N%s prices for an N-period %s' % (cname, '+1' if want else '', 'signal of returns' if want else 'average'), rf.site(),
+                    'window is lookback%+d' % mo, key='C16.S2|%s|window' % cname)
+        ctx.sample({'rule': 'C16.S2', 'signal': cname, 'key_offset': str(ko), 'window_offset': str(mo), 'reader_offset': str(rk)})
     ws = writers_of_attr(ctx.M, 'lookbacks')
     ctx.require(all(w.fn.name == '__init__' and w.how.startswith('assign:field') for w in ws), 'C16.S2', 'lookbacks are set only by constructors', ws[0].where if ws else None,
                 [w.fn.qn for w in ws], key='C16.S2|lookbacks-writers')
@@ -235,7 +416,7 @@ def s3_slots(ctx):
     qn = 'VolatilitySignal._annualised_vol'
     fn = ctx.fn(qn)
     ps = summarise(ctx, qn, policy=default_policy)
-    r = _returns_of(buf(1))
+    r = _returns_of(buf(READER_OFFSET.get('VolatilitySignal', 1)))
     r0 = strip_ndarray(r)
     for p in ps:
         if p.outcome != 'return':
@@ -281,6 +462,8 @@ def s3_slots(ctx):
     # momentum: last/first - 1 over the window, via compounding the simple returns
     qn = 'MomentumSignal._cumulative_return'
     fn = ctx.fn(qn)
+    r = _returns_of(buf(READER_OFFSET.get('MomentumSignal', 1)))
+    r0 = strip_ndarray(r)
     ps = summarise(ctx, qn, policy=default_policy)
     for p in ps:
         if p.outcome != 'return':
@@ -304,7 +487,7 @@ def s3_slots(ctx):
             alts.append(T.t_sub(('sub', cp, num(-1)), num(1)))
             alts.append(('sub', T.t_sub(cp, num(1)), num(-1)))
             alts.append(T.t_sub(('call', ('ext', 'PROD'), (T.t_add(num(1), rr),), ()), num(1)))
-        b = buf(1)
+        b = buf(READER_OFFSET.get('MomentumSignal', 1))
         alts.append(T.t_sub(T.t_div(('sub', b, num(-1)), ('sub', b, num(0))), num(1)))
         if any(T.teq(strip_ndarray(v), strip_ndarray(a)) for a in alts):
             ctx.holds('C16.S3', 'momentum = compounded simple returns of the window - 1 (= last/first - 1)', fn.site())
@@ -320,7 +503,7 @@ def s3_slots(ctx):
     qn = 'SMASignal._simple_moving_average'
     fn = ctx.fn(qn)
     ps = summarise(ctx, qn, policy=default_policy)
-    b0 = buf(0)
+    b0 = buf(READER_OFFSET.get('SMASignal', 0))
     for p in ps:
         if p.outcome != 'return':
             continue
